@@ -63,9 +63,9 @@ pub fn hermes_scope() -> Report {
         }
     }
     // bytecode offsets on line 0 through a range mapping, null metadata before and after a function map, and the same answers after serialising and decoding again
-    for metas in [vec![Some(0usize), None, Some(1)], vec![None, Some(0), Some(1)], vec![Some(0), Some(1), None], vec![None, None, Some(0)], vec![Some(2), Some(0), None], vec![Some(0), None, Some(2)]] {
-        let fms = ["AAA,UCA,UDA", "AAA;KCC", "AAA"];           // source A: <global>@1:0 foo@1:10 <global>@1:20 ; source B: <global>@1:0 bar@2:5
-        let fnames = [r#"["<global>","foo"]"#, r#"["<global>","bar"]"#, "[]"];   // the third function map has no names: its entry resolves to nothing
+    for metas in [vec![Some(0usize), None, Some(1)], vec![None, Some(0), Some(1)], vec![Some(0), Some(1), None], vec![None, None, Some(0)], vec![Some(2), Some(0), None], vec![Some(0), None, Some(2)], vec![Some(3), Some(0), Some(1)], vec![Some(0), Some(3), Some(1)]] {
+        let fms = ["AAA,UCA,UDA", "AAA;KCC", "AAA", "AAA;ECC;ECg"];           // source A: <global>@1:0 foo@1:10 <global>@1:20 ; source B: <global>@1:0 bar@2:5 ; the fourth is cut off inside its last value after complete fields: it disables itself only
+        let fnames = [r#"["<global>","foo"]"#, r#"["<global>","bar"]"#, "[]", r#"["<global>","x"]"#];   // the third function map has no names: its entry resolves to nothing
         let meta_json: Vec<String> = metas.iter().map(|m| match m { Some(k) => format!(r#"[{{"names":{},"mappings":"{}"}}]"#, fnames[*k], fms[*k]), None => "null".into() }).collect();
         // one range token per source on line 0: generated columns 0, 100, 200 -> original (0,0) of source 0, 1, 2
         let json = format!(r#"{{"version":3,"sources":["s0.js","s1.js","s2.js"],"names":[],"mappings":"AAAA,oGCAA,oGCAA","rangeMappings":"H","x_facebook_sources":[{}]}}"#, meta_json.join(","));
@@ -73,7 +73,7 @@ pub fn hermes_scope() -> Report {
         let smh = match guarded(|| SourceMapHermes::from_slice(json.as_bytes())) { Ok(Ok(m)) => m, o => return r("hermes_scope", bound, cases, Some(format!("from_slice failed for {json}: {:?}", o.map(|x| x.map(|_| ()))))) };
         let mut out = vec![]; smh.to_writer(&mut out).ok();
         let again = match guarded(|| SourceMapHermes::from_slice(&out)) { Ok(Ok(m)) => m, o => return r("hermes_scope", bound, cases, Some(format!("the library does not decode its own Hermes output {}: {:?}", String::from_utf8_lossy(&out), o.map(|x| x.map(|_| ()))))) };
-        let entries: [Vec<(u64, u32, &str)>; 3] = [vec![(1, 0, "<global>"), (1, 10, "foo"), (1, 20, "<global>")], vec![(1, 0, "<global>"), (2, 5, "bar")], vec![]];
+        let entries: [Vec<(u64, u32, &str)>; 4] = [vec![(1, 0, "<global>"), (1, 10, "foo"), (1, 20, "<global>")], vec![(1, 0, "<global>"), (2, 5, "bar")], vec![], vec![]];
         for src in 0..3u32 { for off in [0u32, 4, 9, 10, 15, 19, 20, 35] {
             let col = src * 100 + off;
             let want = metas[src as usize].and_then(|k| entries[k].iter().filter(|e| (e.0, e.1) <= (1, off)).last().map(|e| e.2.to_string()));
@@ -86,6 +86,23 @@ pub fn hermes_scope() -> Report {
                 if got2 != want { return r("hermes_scope", bound, cases, Some(format!("Hermes map with metadata {metas:?}: token looked up at (0,{col}) {what} has scope {got2:?}, expected {want:?}"))); }
             }
         } }
+    }
+    // one-field segments (no source): a bytecode offset that resolves to one has no enclosing function, whatever precedes it; DecodedMap dispatch: nothing off line 0
+    {
+        // generated columns: 0 -> a.js (0,0) ; 10 -> no source ; 20 -> a.js (0,15) ; 30 -> no source
+        let json = r#"{"version":3,"sources":["a.js"],"names":[],"mappings":"AAAA,U,UAAe,U","x_facebook_sources":[[{"names":["<global>","foo"],"mappings":"AAA,UCA"}]]}"#;
+        cases += 1;
+        let dm = match guarded(|| sourcemap::decode_slice(json.as_bytes())) { Ok(Ok(m)) => m, o => return r("hermes_scope", bound, cases, Some(format!("decode_slice failed for {json}: {:?}", o.map(|x| x.map(|_| ())))))};
+        let smh = match &dm { DecodedMap::Hermes(h) => h, _ => return r("hermes_scope", bound, cases, Some(format!("{json} is not decoded as a Hermes map"))) };
+        for (col, want) in [(0u32, Some("<global>")), (5, Some("<global>")), (10, None), (15, None), (20, Some("foo")), (29, Some("foo")), (30, None), (99, None)] {
+            cases += 1; crate::witness(want.is_some());
+            let got = smh.get_original_function_name(col);
+            if got != want { return r("hermes_scope", bound, cases, Some(format!("Hermes map with source-less segments at generated columns 10 and 30: bytecode offset {col} resolves to {got:?}, expected {want:?} (a token without a source has no enclosing function)"))); }
+            let got2 = dm.get_original_function_name(0, col, None, None);
+            if got2 != want { return r("hermes_scope", bound, cases, Some(format!("DecodedMap::get_original_function_name(0, {col}) = {got2:?}, expected {want:?}"))); }
+            let got3 = dm.get_original_function_name(1, col, None, None);
+            if got3.is_some() { return r("hermes_scope", bound, cases, Some(format!("DecodedMap::get_original_function_name(1, {col}) = {got3:?} for a Hermes map: bytecode offsets live on line 0 only"))); }
+        }
     }
     r("hermes_scope", bound, cases, None)
 }
@@ -523,12 +540,13 @@ fn join(root: Option<&str>, raw: &str) -> String {
 }
 /// every source reads as raw name joined with the current root, after any sequence of setter calls
 pub fn root_setters() -> Report {
-    let bound = "all sequences of <= 3 operations from set_source_root(None | '' | 'r' | 'r/' | 'r//' | '/' | 'w:///' | 'w://') and set_source(0 | 1, 'x.js' | '/abs.js' | 'http://h/y.js' | '') on a 2-source map";
+    let bound = "all sequences of <= 3 operations from set_source_root(None | '' | 'r' | 'r/' | 'r//' | '/' | 'w:///' | 'w://') and set_source(0 | 1, 'x.js' | '/abs.js' | 'http://h/y.js' | '' | 'r/x.js' | 'rx.js' | 'http/c.js' | 'https-agent.js') on a 2-source map";
     let mut cases = 0u64;
     #[derive(Clone, Debug)] enum Op { Root(Option<&'static str>), Src(u32, &'static str) }
     let mut ops = vec![];
     for rt in [None, Some(""), Some("r"), Some("r/"), Some("r//"), Some("/"), Some("w:///"), Some("w://")] { ops.push(Op::Root(rt)); }
-    for i in 0..2 { for s in ["x.js", "/abs.js", "http://h/y.js", ""] { ops.push(Op::Src(i, s)); } }
+    // names that merely START with the root text or with "http" are ordinary relative names
+    for i in 0..2 { for s in ["x.js", "/abs.js", "http://h/y.js", "", "r/x.js", "rx.js", "http/c.js", "https-agent.js"] { ops.push(Op::Src(i, s)); } }
     let mut seqs: Vec<Vec<Op>> = vec![vec![]]; let mut layer: Vec<Vec<Op>> = vec![vec![]];
     for _ in 0..3 { let mut next = vec![]; for s in &layer { for o in &ops { let mut t = s.clone(); t.push(o.clone()); next.push(t); } } seqs.extend(next.iter().cloned()); layer = next; }
     for seq in &seqs {
@@ -549,20 +567,24 @@ pub fn root_setters() -> Report {
 }
 /// builder as an interning model
 pub fn builder_model() -> Report {
-    let bound = "all sequences of <= 4 operations from add_source / add_name over {'a','b',''} and set_source_contents(id, Some/None) over ids {0,1,2} and add_to_ignore_list over ids {0,1} (before or after the source exists); all triples of 15 look-alike strings (./a.js, a.js/, A.js, NFC / NFD, ...) through add_source and add_name; all sequences of <= 3 add() calls over 6 source/name combinations (each present or absent)";
+    let bound = "all sequences of <= 4 operations from add_source / add_name over {'a','b',''} and set_source_contents(id, Some/None) over ids {0,1,2} and add_to_ignore_list over ids {0,1} (before or after the source exists) and set_source(0, new / already used string); all triples of 15 look-alike strings (./a.js, a.js/, A.js, NFC / NFD, ...) through add_source and add_name; all sequences of <= 3 add() calls over 6 source/name combinations (each present or absent)";
     let mut cases = 0u64;
-    #[derive(Clone, Debug)] enum Op { Src(&'static str), Name(&'static str), Cont(u32, Option<&'static str>), Ign(u32) }
+    #[derive(Clone, Debug)] enum Op { Src(&'static str), Name(&'static str), Cont(u32, Option<&'static str>), Ign(u32), Rename(u32, &'static str) }
     let mut ops = vec![]; for s in ["a", "b", ""] { ops.push(Op::Src(s)); ops.push(Op::Name(s)); } for i in 0..3 { ops.push(Op::Cont(i, Some("c"))); ops.push(Op::Cont(i, None)); } for i in 0..2 { ops.push(Op::Ign(i)); }
+    // set_source renames a table entry in place; the interning of later adds still goes by the strings ADDED so far (a renamed entry keeps its id, its old string stays taken, its new string is not interned)
+    ops.push(Op::Rename(0, "z")); ops.push(Op::Rename(0, "b"));
     let mut seqs: Vec<Vec<Op>> = vec![vec![]]; let mut layer: Vec<Vec<Op>> = vec![vec![]];
     for _ in 0..4 { let mut next = vec![]; for s in &layer { for o in &ops { let mut t = s.clone(); t.push(o.clone()); next.push(t); } } seqs.extend(next.iter().cloned()); layer = next; }
     for seq in &seqs {
         cases += 1;
         let mut b = SourceMapBuilder::new(None);
         let (mut srcs, mut names): (Vec<&str>, Vec<&str>) = (vec![], vec![]); let mut cont: Vec<Option<String>> = vec![];
+        let mut shown: Vec<&str> = vec![];   // what each source id reads as (differs from `srcs`, the strings added, after a set_source)
         let mut ign: std::collections::BTreeSet<u32> = Default::default();
         let mut skip = false;
         for o in seq { match o {
-            Op::Src(s) => { let id = b.add_source(s); let want = srcs.iter().position(|x| x == s).unwrap_or_else(|| { srcs.push(s); srcs.len() - 1 }); if id as usize != want { return r("builder_model", bound, cases, Some(format!("{seq:?}: add_source({s:?}) = {id}, model says {want}"))); } }
+            Op::Rename(i, s) => { if *i as usize >= srcs.len() { skip = true; break; } b.set_source(*i, s); shown[*i as usize] = s; }
+            Op::Src(s) => { let id = b.add_source(s); let want = srcs.iter().position(|x| x == s).unwrap_or_else(|| { srcs.push(s); shown.push(s); srcs.len() - 1 }); if id as usize != want { return r("builder_model", bound, cases, Some(format!("{seq:?}: add_source({s:?}) = {id}, model says {want}"))); } }
             Op::Name(s) => { let id = b.add_name(s); let want = names.iter().position(|x| x == s).unwrap_or_else(|| { names.push(s); names.len() - 1 }); if id as usize != want { return r("builder_model", bound, cases, Some(format!("{seq:?}: add_name({s:?}) = {id}, model says {want}"))); } }
             Op::Ign(i) => { b.add_to_ignore_list(*i); ign.insert(*i); }
             Op::Cont(i, c) => { if *i as usize >= srcs.len() { skip = true; break; } if cont.len() < srcs.len() { cont.resize(srcs.len(), None); } cont[*i as usize] = c.map(|s| s.to_string()); b.set_source_contents(*i, *c); }
@@ -570,7 +592,7 @@ pub fn builder_model() -> Report {
         if skip { continue; }
         for i in 0..3u32 { let got = b.get_source_contents(i).map(|s| s.to_string()); let want = cont.get(i as usize).cloned().flatten(); if got != want { return r("builder_model", bound, cases, Some(format!("{seq:?}: builder contents of source {i} = {got:?}, model {want:?}"))); } }
         let sm = b.into_sourcemap();
-        for (i, s) in srcs.iter().enumerate() { if sm.get_source(i as u32) != Some(s) { return r("builder_model", bound, cases, Some(format!("{seq:?}: finished map source {i} = {:?}, model {s:?}", sm.get_source(i as u32)))); }
+        for (i, s) in shown.iter().enumerate() { if sm.get_source(i as u32) != Some(s) { return r("builder_model", bound, cases, Some(format!("{seq:?}: finished map source {i} = {:?}, model {s:?}", sm.get_source(i as u32)))); }
             let want = cont.get(i).cloned().flatten(); if sm.get_source_contents(i as u32).map(|x| x.to_string()) != want { return r("builder_model", bound, cases, Some(format!("{seq:?}: finished map contents of source {i} = {:?}, model {want:?}", sm.get_source_contents(i as u32)))); } }
         for (i, s) in names.iter().enumerate() { if sm.get_name(i as u32) != Some(s) { return r("builder_model", bound, cases, Some(format!("{seq:?}: finished map name {i} wrong"))); } }
         let gi: std::collections::BTreeSet<u32> = sm.ignore_list().cloned().collect();
@@ -769,6 +791,18 @@ pub fn decode_document() -> Report {
         let got_short: Vec<_> = toks.iter().map(|t| (t.0, t.1, t.2)).collect(); let want_short: Vec<_> = wt.iter().map(|t| (t.0, t.1, t.2)).collect();
         if got_short != want_short { return r("decode_document", bound, cases, Some(format!("document {doc}: tokens (line, col, source) {got_short:?}, expected {want_short:?}"))); }
     } }
+    // numeric names of every JSON number shape read as their decimal text
+    {
+        cases += 1;
+        let doc = r#"{"version":3,"sources":["a.js"],"names":[7,-7,2.5,0,"n"],"mappings":"AAAAA,CAAAC,CAAAC,CAAAC,CAAAC"}"#;
+        let want = ["7", "-7", "2.5", "0", "n"];
+        match guarded(|| decode_slice(doc.as_bytes())) {
+            Ok(Ok(DecodedMap::Regular(sm))) => { for (i, w) in want.iter().enumerate() {
+                if sm.get_name(i as u32) != Some(w) { return r("decode_document", bound, cases, Some(format!("document {doc}: numeric name {i} reads {:?}, expected its decimal text {w:?}", sm.get_name(i as u32)))); }
+                if sm.get_token(i).and_then(|t| t.get_name()) != Some(w) { return r("decode_document", bound, cases, Some(format!("document {doc}: token {i} resolves to name {:?}, expected {w:?}", sm.get_token(i).and_then(|t| t.get_name())))); } } },
+            o => return r("decode_document", bound, cases, Some(format!("document {doc} does not decode as a regular map: {:?}", o.map(|x| x.map(|_| ()).map_err(|e| e.to_string()))))),
+        }
+    }
     for doc in [r#"{"version":3,"sections":[]}"#, r#"{"version":3,"file":"out.js","sections":[]}"#, r#"{"version":3,"sections":[{"offset":{"line":0,"column":0},"map":{"version":3,"sections":[]}}]}"#] {
         cases += 1;
         match guarded(|| decode_slice(doc.as_bytes())) {
